@@ -30,6 +30,29 @@ type codec struct {
 type gen struct {
 	r    *rand.Rand
 	keys []*fixture.Key
+	k    int // number of the object within its type
+}
+
+// The handler-state dimension of the consensus entry point: object number k < 5 of a consensus payload type is built
+// for this (round, index) relative to the handler's current (ctxRound, ctxIndex) -- current, next index, next round,
+// previous round, far future -- with a timestamp that is not in the future and valid signatures of the registered
+// validator, so that the envelope around it (and around each of its mutations) passes the handler's admission checks
+// and reaches the round-dependent code.
+var liveStates = [][2]uint64{{ctxRound, uint64(ctxIndex)}, {ctxRound, uint64(ctxIndex) + 1}, {ctxRound + 1, 1}, {ctxRound - 1, 1}, {ctxRound + 10000, 1}}
+
+// liveTypes get at least len(liveStates) seed objects.
+var liveTypes = map[string]bool{"BlockHashWithVotes": true, "ConsensusCommon": true, "Block": true, "UconMessage": true}
+
+// live picks the handler state of this object: fixed by k for the first objects, random (or none) afterwards.
+func (g *gen) live() (round *big.Int, index uint32, ok bool) {
+	i := g.k
+	if i >= len(liveStates) {
+		if g.n(2) == 0 {
+			return nil, 0, false
+		}
+		i = g.n(len(liveStates))
+	}
+	return new(big.Int).SetUint64(liveStates[i][0]), uint32(liveStates[i][1]), true
 }
 
 func newGen(seed int64, ty string, k int) *gen {
@@ -38,7 +61,7 @@ func newGen(seed int64, ty string, k int) *gen {
 	for i := 0; i < 8; i++ {
 		s = s<<8 | int64(h[i])
 	}
-	return &gen{r: rand.New(rand.NewSource(s)), keys: fixture.Keys("rlp", 4)}
+	return &gen{r: rand.New(rand.NewSource(s)), keys: fixture.Keys("rlp", 4), k: k}
 }
 
 func (g *gen) n(n int) int { return g.r.Intn(n) }
@@ -218,7 +241,16 @@ func (g *gen) storedReceipt() *types.ReceiptForStorage {
 	return (*types.ReceiptForStorage)(r)
 }
 func (g *gen) block() *types.Block {
-	return types.NewBlockWithHeader(g.header()).WithBody(&types.Body{Transactions: g.txs()})
+	h := g.header()
+	if round, index, ok := g.live(); ok { // a proposal the handler admits: consensus data for that round, not from the future
+		d := g.consensusData()
+		d.Round, d.RoundIndex, d.Signature = round, index, nil
+		if err := d.SetSignature(g.keys[1].Priv); err != nil {
+			panic(err)
+		}
+		h.Consensus, h.Time = mustEnc(d), 1
+	}
+	return types.NewBlockWithHeader(h).WithBody(&types.Body{Transactions: g.txs()})
 }
 
 // ---------------------------------------------------------------------------- core/state
@@ -498,7 +530,11 @@ func init() {
 		code := ucon.StringToMessageCode(codes[g.n(len(codes))])
 		var payload []byte
 		key := g.key()
-		switch g.n(4) {
+		sel := g.n(4)
+		if g.k < len(liveStates) {
+			sel = 2
+		}
+		switch sel {
 		case 0:
 			payload = mustEnc(g.votes())
 		case 1:
@@ -507,7 +543,7 @@ func init() {
 			// a message the entry-point fixture accepts: a vote for its current round, signed by its validator key
 			for {
 				v := g.votes()
-				if v.Round.Cmp(big.NewInt(ctxRound)) == 0 {
+				if v.Timestamp == 1 {
 					payload = mustEnc(v)
 					break
 				}
@@ -615,8 +651,8 @@ func init() {
 func (g *gen) consensusCommon() *ucon.ConsensusCommon {
 	c := &ucon.ConsensusCommon{Round: g.big(), RoundIndex: g.u32(), Step: g.u32(), Priority: g.hash(), SortitionProof: g.bytes(81), SubUsers: g.u32(),
 		BlockHash: g.hash(), ParentHash: g.hash(), Timestamp: g.u64()}
-	if g.n(2) == 0 { // for the handler's current round and index, not from the future
-		c.Round, c.RoundIndex, c.Timestamp = big.NewInt(ctxRound), ctxIndex, 1
+	if round, index, ok := g.live(); ok { // not from the future
+		c.Round, c.RoundIndex, c.Timestamp = round, index, 1
 	}
 	return c
 }
@@ -639,11 +675,11 @@ func (g *gen) smallValue() *big.Int {
 func (g *gen) votes() *ucon.BlockHashWithVotes {
 	v := g.singleVote()
 	m := &ucon.BlockHashWithVotes{Priority: g.hash(), BlockHash: g.hash(), Round: g.big(), RoundIndex: g.u32(), Vote: &v, Timestamp: g.u64()}
-	if g.n(2) == 0 {
-		// a vote the entry-point fixture processes all the way: current round and index of the handler, signed (ECDSA, the
-		// fixture runs with EnableBls=false) by the validator key that also signs the enclosing message, not from the future
-		m.Round, m.RoundIndex, m.Timestamp = big.NewInt(ctxRound), ctxIndex, 1
-		payload := append(m.BlockHash.Bytes(), append(m.Round.Bytes(), byte(ctxIndex>>24), byte(ctxIndex>>16), byte(ctxIndex>>8), byte(ctxIndex))...)
+	if round, index, ok := g.live(); ok {
+		// a vote the entry-point fixture processes all the way: signed (ECDSA, the fixture runs with EnableBls=false) by the
+		// validator key that also signs the enclosing message, not from the future
+		m.Round, m.RoundIndex, m.Timestamp = round, index, 1
+		payload := append(m.BlockHash.Bytes(), append(m.Round.Bytes(), byte(index>>24), byte(index>>16), byte(index>>8), byte(index))...)
 		sig, err := ucon.Sign(g.keys[1].Priv, payload)
 		if err != nil {
 			panic(err)
